@@ -30,6 +30,13 @@ def _h5_roots(func, du):
     changed = True
     while changed:
         changed = False
+        # with <something opened from the file parameter> as f:
+        for w in walk_no_nested(func.node):
+            if isinstance(w, (ast.With, ast.AsyncWith)):
+                for it in w.items:
+                    if isinstance(it.optional_vars, ast.Name) and it.optional_vars.id not in roots and isinstance(it.context_expr, ast.Call) and any(isinstance(a, ast.Name) and a.id in roots and roots[a.id] == "" for a in it.context_expr.args):
+                        roots[it.optional_vars.id] = ""
+                        changed = True
         for st, t, v, k in stores(func):
             if not isinstance(t, ast.Name) or t.id in roots or v is None:
                 continue
@@ -120,6 +127,17 @@ def writer_map(P, func):
         if isinstance(t, ast.Subscript) and isinstance(t.value, ast.Name) and t.value.id in roots and k == "assign":
             key = _keytext(t.slice)
             if key is None:
+                # hdf5[key] = getattr(self, key) inside `for key in ("a", "b", ...)`: one entry per literal name
+                if isinstance(t.slice, ast.Name):
+                    lp = getattr(st, "_parent", None)
+                    while lp is not None and not (isinstance(lp, ast.For) and isinstance(lp.target, ast.Name) and lp.target.id == t.slice.id):
+                        lp = getattr(lp, "_parent", None)
+                    lits = [const_value(e) for e in lp.iter.elts] if lp is not None and isinstance(lp.iter, (ast.Tuple, ast.List)) else []
+                    if lits and all(isinstance(x, str) for x in lits):
+                        c = cone(du, v, du.stmt_of(st), interproc=False)
+                        via_getattr = any(isinstance(n, ast.Call) and isinstance(n.func, ast.Name) and n.func.id == "getattr" and len(n.args) >= 2 and isinstance(n.args[0], ast.Name) and n.args[0].id == me and isinstance(n.args[1], ast.Name) and n.args[1].id == t.slice.id for n in c.nodes)
+                        for lit in lits:
+                            out.append(WEntry(roots[t.value.id] + lit, v, {lit} if via_getattr else set(), st, guards_of(st)))
                 continue
             c = cone(du, v, du.stmt_of(st), interproc=False)
             attrs = {a.split(".")[1] for a in c.attrs if a.split(".")[0] == me and len(a.split(".")) >= 2}
@@ -179,24 +197,60 @@ def ctor_param_attrs(P, ci):
 
 
 def reader_sources(P, func, arm, roots):
-    """attribute -> ordered list of (expr, stmt, via) for the object built in this arm."""
+    """attribute -> ordered list of (expr, stmt, via) for the object built in this arm.
+
+    An arm may also only read the file into locals and leave the construction to statements shared by both arms after the version
+    switch (`self = cls(**kwargs)` / `self.n = n`): the shared tail is then analysed with every name resolved to its definition in
+    *this* arm."""
     du = get_defuse(func, P)
     ci = func.cls
     p2a, init = ctor_param_attrs(P, ci)
     srcs = {}
     order = 0
     objname = None
+    arm = list(arm or [])
+    # the statements that follow the version switch in its block
+    tail = []
+    if arm:
+        sw = getattr(arm[0], "_parent", None)
+        par = getattr(sw, "_parent", None)
+        for fld in ("body", "orelse", "finalbody"):
+            blk = getattr(par, fld, None)
+            if isinstance(blk, list) and sw in blk and not any(sw_st is arm[0] for sw_st in blk):
+                tail = blk[blk.index(sw) + 1:]
+    arm_defs = {}
     for st in arm:
+        for n in walk_no_nested(st):
+            if isinstance(n, ast.Assign) and len(n.targets) == 1 and isinstance(n.targets[0], ast.Name):
+                arm_defs[n.targets[0].id] = (n.value, n)
+
+    def in_arm(expr, stmt, from_tail):
+        """(expression, statement) with a name of the shared tail replaced by its definition in this arm"""
+        if from_tail and isinstance(expr, ast.Name) and expr.id in arm_defs:
+            return arm_defs[expr.id]
+        return expr, stmt
+
+    for st, from_tail in [(x, False) for x in arm] + [(x, True) for x in tail]:
         for n in walk_no_nested(st):
             if isinstance(n, ast.Assign) and isinstance(n.value, ast.Call) and isinstance(n.targets[0], ast.Name):
                 tg = P.resolve_callee(n.value.func, func)
                 if any(t[0] == "ctor" and t[1] is ci for t in tg):
                     objname = n.targets[0].id
-                    bound = P.bind_args(init, n.value.args, n.value.keywords) if init else {}
+                    args, kws = list(n.value.args), list(n.value.keywords)
+                    # cls(**kwargs) with kwargs a dict literal of this arm
+                    extra = []
+                    for kw in list(kws):
+                        if kw.arg is None:
+                            dv, dst = in_arm(kw.value, n, True)
+                            if isinstance(dv, ast.Dict) and all(isinstance(k_, ast.Constant) and isinstance(k_.value, str) for k_ in dv.keys):
+                                extra += [ast.keyword(arg=k_.value, value=v_) for k_, v_ in zip(dv.keys, dv.values)]
+                                kws.remove(kw)
+                    bound = P.bind_args(init, args, kws + extra) if init else {}
                     for p, a in bound.items():
+                        a2, st2 = in_arm(a, n, from_tail)
                         for attr in p2a.get(p, ()):  # via the constructor
                             order += 1
-                            srcs.setdefault(attr, []).append((order, a, n, f"constructor parameter {p}"))
+                            srcs.setdefault(attr, []).append((order, a2, st2 if st2 is not None else n, f"constructor parameter {p}"))
                     # parameters not passed: attribute gets the constructor default
                     if init:
                         for p in init.value_params:
@@ -208,7 +262,8 @@ def reader_sources(P, func, arm, roots):
                 for t in n.targets:
                     if isinstance(t, ast.Attribute) and isinstance(t.value, ast.Name) and t.value.id == objname:
                         order += 1
-                        srcs.setdefault(t.attr, []).append((order, n.value, n, "attribute store"))
+                        v2, st2 = in_arm(n.value, n, from_tail)
+                        srcs.setdefault(t.attr, []).append((order, v2, st2, "attribute store"))
     return srcs, objname, du
 
 
